@@ -29,7 +29,7 @@ try:
     rc, o = sh(f"git apply {diff}", cwd="/repo")
     if rc != 0:
         print("does not apply to /repo", o); sys.exit(2)
-    for tier, budget in (("quick", None), ("thorough", "90")):
+    for tier, budget in (("quick", None), ("thorough", "60")):
         env = dict(os.environ)
         if budget:
             env["VERIF_BUDGET_S"] = budget
